@@ -28,7 +28,6 @@ func c12Check(src string, intact int) (domain bool, kind, detail string) {
 	if !ref.GRejects(src) {
 		return false, "", ""
 	}
-	depth := 0
 	if rt, err := ref.Tokenize(src); err == nil {
 		for i, t := range rt {
 			// D7: a template literal right after an expression end is a TAGGED template in JavaScript
@@ -36,15 +35,6 @@ func c12Check(src string, intact int) (domain bool, kind, detail string) {
 			// only defect depends on that reading are outside the fault model
 			if t.Kind == ref.TTemplate && i > 0 && rtokEndsExpr(rt[i-1]) {
 				return false, "", ""
-			}
-			switch t.Text {
-			case "{":
-				depth++
-			case "}":
-				depth--
-				if depth < 0 {
-					return false, "", "" // a surplus closing brace at top level: outside the fault model
-				}
 			}
 		}
 	}
@@ -298,7 +288,7 @@ func c12Replay(pl json.RawMessage) (string, []core.Violation) {
 func init() {
 	core.Register(&core.PropSpec{
 		ID: "C12", Level: "fault_enumeration",
-		Rule:     "valid programs = every subset-valid token sequence <= n (4 quick, 5 thorough) in every {space,LF} layout, every expression chain of depth 2 and every statement-family program (default layout and with each semicolon replaced by a line break); faults = delete each token, join two lines (remove a line-break separator), delete each ';', truncate at every byte inside each string/template literal and after each token inside an open bracket pair or block; domain = corrupted texts the reference parser (goja) rejects both as script and as function body, without a surplus top-level '}'; oracle = strict parse reports an error whose first range starts no earlier than the last intact token. non-trivial = corrupted text in the domain (counted per fault kind) Added families: every statement-family program also with a line break in every gap (except before postfix operators), with and without semicolons; statements whose last token spans several lines; two-literal programs (9 first literals with escapes next to the closing delimiter x 4 second literals x 4 templates).",
+		Rule:     "valid programs = every subset-valid token sequence <= n (4 quick, 5 thorough) in every {space,LF} layout, every expression chain of depth 2 and every statement-family program (default layout and with each semicolon replaced by a line break); faults = delete each token, join two lines (remove a line-break separator), delete each ';', truncate at every byte inside each string/template literal and after each token inside an open bracket pair or block; domain = corrupted texts the reference parser (goja) rejects both as script and as function body; oracle = strict parse reports an error whose first range starts no earlier than the last intact token. non-trivial = corrupted text in the domain (counted per fault kind) Added families: every statement-family program also with a line break in every gap (except before postfix operators), with and without semicolons; statements whose last token spans several lines; two-literal programs (9 first literals with escapes next to the closing delimiter x 4 second literals x 4 templates).",
 		Assume:   []string{"goja's accept/reject verdict defines 'no longer valid JavaScript'"},
 		QuickSec: 240, ThorSec: 1800, Run: c12Run, Replay: c12Replay,
 		Evals: "corrupted_texts", Nontriv: "faults_in_domain",
